@@ -248,6 +248,8 @@ Judge(pr, r) ==
     [] r.k = "reg" -> JReg(r)
     [] r.k = "sock" -> JSock(r)
     [] r.k = "lookup" -> JLookup(r)
+    \* C15: the datagram handed to the network is exactly the frame: as long as its header says, whatever was sent before
+    [] r.k = "dgram" -> IF r.dlen = r.want /\ r.hdr = r.dlen /\ r.same = 1 THEN {} ELSE {"C15.HeaderLen"}
     [] r.k = "crash" -> {"C01.NoPanic", "C16.InOrderOnce", "C20.ReturnBound"}
     [] OTHER -> {}
 
